@@ -5,7 +5,7 @@
    float64 values are their 64-bit patterns (uint64 as Z); int64 values are Z in
    [-2^63, 2^63); bytes are Z in [0,256).  No proofs in this file. *)
 From Coq Require Import ZArith List Bool.
-From Bluge Require Import Base.Int64 Base.Res Gen.Params.
+From Bluge Require Import Base.Int64 Base.Res Gen.ParamsNumeric.
 Import ListNotations.
 Open Scope Z_scope.
 
